@@ -304,6 +304,18 @@ def lib_cases(thorough, rng):
             out.append(('CPF', lambda: parser.CPF(terminal=True), cpf(items) + b'Z', 2 + 4 + len(content) + dl + 4 + 3, 'CPF.item[0].length'))
             items = [(0x0000, 0, b''), (tid, len(content) + dl, content + b'pad'[:max(dl, 0)])]
             out.append(('CPF', lambda: parser.CPF(terminal=True), cpf(items) + b'Z', 2 + 4 + 4 + len(content) + dl, 'CPF.item[1].length'))
+    # a padded EPATH: size (words), a pad byte whose VALUE is irrelevant, the segments; extended status: count, then that many words
+    segs = bytes([0x20, 0x02, 0x24, 0x01])
+    for pad in (0x00, 0x01, 0x5A, 0x80, 0xFF):
+        for nseg in (1, 2):
+            for tail in (b'', bytes([0x20, 0x06, 0x24, 0x01]), b'\x28\x01'):
+                data = bytes([nseg, pad]) + segs[:2 * nseg] + tail
+                out.append(('EPATH_padded', lambda: parser.EPATH_padded(terminal=True), data, 2 + 2 * nseg, 'EPATH_padded.size!'))
+                out.append(('route_path', lambda: parser.route_path(terminal=True), bytes([nseg, pad]) + bytes([0x01, 0x00, 0x01, 0x02])[:2 * nseg] + tail, 2 + 2 * nseg, 'route_path.size'))
+    for n in range(0, 6):
+        for tail in (b'', b'\x34\x12', b'\x00\x00\x00\x00'):
+            data = bytes([0xFF if n else 0x00, n]) + b''.join(struct.pack('<H', 0x2100 + j) for j in range(n)) + tail
+            out.append(('status', lambda: parser.status(terminal=True), data, 2 + 2 * n, 'status_ext.size!'))
     # every library machine under an outer fixed limit
     wraps = [('SSTRING', lambda: parser.SSTRING(), b'\x03abcZ'), ('STRING', lambda: parser.STRING(), b'\x03\x00abc\x00Z'),
              ('EPATH', lambda: parser.EPATH(), b'\x02\x20\x02\x24\x01Z'), ('EPATH_padded', lambda: parser.EPATH_padded(), b'\x02\x00\x20\x02\x24\x01Z'),
@@ -480,11 +492,12 @@ def run(ctx):
                     if sent > expect[1]:
                         nbad += 1
                         ctx.violation(dict(machine=name, input=list(data), sent=sent, limit=expect[1]), 'completed beyond the fixed limit')
-                elif res[2] and sent > expect:
+                elif res[2] and (sent > expect or (field and field.endswith('!') and sent != expect)):
+                    # ('!': the input is consistent with its count field, so the counted sub-grammar must have run exactly that many times)
                     nbad += 1
                     if nbad <= 6:
                         ctx.violation(dict(machine=name, input=list(data), sent=sent, framing_from_bytes=expect, field=field),
-                                      'parser completed having consumed a different number of symbols than its length field allows')
+                                      'parser completed having consumed a different number of symbols than its length / count field says')
     # ---- D. the command parsers take their limit from the header's length FIELD (enip.length), also when the collected payload
     # (enip.input) is longer - the way client.py runs them: path='enip', source = the payload bytes
     import cpppo
